@@ -62,6 +62,13 @@ def gen(ctx):
                 ops.append(f"inj:{rng.choice(pool)}:{rng.randrange(2)}")
             else:
                 ops.append("con")
+        if rng.random() < 0.08:
+            # chattering key: debounced, released, pressed again before the release interval has passed, held on
+            k0 = rng.choice(pool)
+            ops = [f"kol:{strobe_all[0]}", f"koh:{strobe_all[1]}", f"p:{k0}"] + ["t"] * (pt + rng.randint(0, 3))
+            ops += [f"r:{k0}"] + ["t"] * rng.randint(0, max(0, rt - 1)) + [f"p:{k0}"] + ["t"] * (pt + rng.randint(1, 6)) + ["rd"]
+            lines.append(f"{pt} {rt} 24 6 {ah} {rep} {irq} " + " ".join(ops))
+            continue
         if rng.random() < 0.10:
             # idle columns: a key is debounced, then every column is unstrobed, the key released and time passes; then the columns
             # are strobed again and the key-input register is read
@@ -131,6 +138,8 @@ def oracle(ctx, name, line, obs, cap, koh_mask, valid=None):
     prev_isr = 0
     since_evt = {}     # code -> strobed scan ticks since its last press / repeat event
     first_rep = {}     # code -> the next repeat is the first one after a press event
+    ticks_since = {}   # code -> scan ticks (strobed or not) since the key's last press / repeat event
+    since_press = {}   # code -> scan ticks since the latest press call for the key
     await_rel = {}     # code -> scan ticks since the release call of a key whose press event was seen (its release event is due)
     inj_only = any(o.startswith("inj:") for o in ops) and not any(o.startswith(("p:", "r:", "rd")) for o in ops)
     if inj_only:
@@ -161,6 +170,7 @@ def oracle(ctx, name, line, obs, cap, koh_mask, valid=None):
             dirty.add(int(p[1]))
         if p[0] == "p" and not continue_after:
             c = int(p[1])
+            since_press[c] = 0
             await_rel.pop(c, None)
             if c not in pressed:
                 pressed.add(c)
@@ -197,6 +207,10 @@ def oracle(ctx, name, line, obs, cap, koh_mask, valid=None):
                     held[c] = 0
             for c in list(released_ago):
                 released_ago[c] += 1
+            for c in list(ticks_since):
+                ticks_since[c] += 1
+            for c in list(since_press):
+                since_press[c] += 1
             for c in list(since_evt):
                 if c in pressed and active(ah, kol, koh, c // 8):
                     since_evt[c] += 1
@@ -258,11 +272,23 @@ def oracle(ctx, name, line, obs, cap, koh_mask, valid=None):
                                 ctx.report([name, "repeat_event_early"], f"{name}: key {c} repeats {since_evt[c]} strobed ticks after its previous event; the configured {'delay' if first_rep.get(c, True) else 'interval'} is {need}",
                                            {"case": " ".join(w[:7] + ops[:k + 1])})
                                 return
+                        elif rep and c in ticks_since and c in dirty and not repressed.get(c, False):
+                            # a key that was released and pressed again inside the release interval is still the same logical
+                            # press: another press-like event cannot come sooner after its previous event than the cadence allows
+                            # allowed: the cadence simply continues (>= interval, or >= delay for the first repeat, since the
+                            # previous event), or the repeat delay was re-armed by the second press (>= delay since that press)
+                            need = dl if first_rep.get(c, True) else iv
+                            if ticks_since[c] < need and since_press.get(c, 10 ** 9) < dl:
+                                ctx.report([name, "second_press_event_for_one_logical_press"], f"{name}: key {c} produces another press/repeat event {ticks_since[c]} scan ticks after its previous one and {since_press.get(c)} after it was pressed again (delay {dl}, interval {iv}) although no release event lies in between",
+                                           {"case": " ".join(w[:7] + ops[:k + 1])})
+                                return
                         first_rep[c] = False
                         since_evt[c] = 0
+                        ticks_since[c] = 0
                     elif not rel:
                         first_rep[c] = True
                         since_evt[c] = 0
+                        ticks_since[c] = 0
                         dirty.discard(c)
                     else:
                         since_evt.pop(c, None)
